@@ -5,6 +5,7 @@
 # License: http://snmplabs.com/pyasn1/license.html
 #
 import os
+import sys
 
 from pyasn1 import debug
 from pyasn1 import error
@@ -1671,6 +1672,12 @@ class SingleItemDecoder(object):
                         length <<= 8
                         length |= oct2int(lengthOctet)
                     size += 1
+
+                    if length > sys.maxsize:
+                        # no stream can be asked for that many octets
+                        raise error.PyAsn1Error(
+                            'Length %d at %s is beyond what this platform '
+                            'can address' % (length, tagSet))
 
                 else:  # 128 means indefinite
                     length = -1
